@@ -293,6 +293,27 @@ pub trait DynGen {
     }
 }
 
+/// Which call sites a run uses. `false`: what a user of the concrete type writes (`rng.next_u32()`,
+/// `Xoshiro256PlusPlus::from_seed(seed)`, `x.clone()`): an inherent item of the same name takes
+/// precedence there. `true`: what generic code (`fn f<R: RngCore>(r: &mut R)`, `R::from_seed`) resolves
+/// to: always the trait implementation. Both must behave identically; set per run from `Spec.generic`.
+static CALL_GENERIC: std::sync::atomic::AtomicBool = std::sync::atomic::AtomicBool::new(false);
+pub fn set_call_generic(on: bool) {
+    CALL_GENERIC.store(on, std::sync::atomic::Ordering::SeqCst);
+}
+#[inline]
+pub fn call_generic() -> bool {
+    CALL_GENERIC.load(std::sync::atomic::Ordering::Relaxed)
+}
+
+/// Debug texts: `{:?}`, and `{:#?}` followed by the texts under every other formatter flag a Debug
+/// implementation can look at (hex flags, sign, width, precision, zero padding, alignment).
+pub fn dbg_texts<T: std::fmt::Debug>(x: &T) -> (String, String) {
+    let compact = format!("{:?}", x);
+    let rest = format!("{:#?}\u{1}{:x?}\u{1}{:#X?}\u{1}{:+?}\u{1}{:12.3?}\u{1}{:<08?}\u{1}{:^#30.1x?}", x, x, x, x, x, x, x);
+    (compact, rest)
+}
+
 macro_rules! m_eq {
     (yes, $a:expr, $b:expr) => {
         Some($a == $b)
@@ -388,18 +409,18 @@ macro_rules! construct_m {
                 let mut s = <$t as SeedableRng>::Seed::default();
                 assert_eq!(s.as_mut().len(), b.len(), "harness: seed length");
                 s.as_mut().copy_from_slice(b);
-                $okc(wrap(<$t>::from_seed(s)), None)
+                $okc(wrap(if call_generic() { <$t as SeedableRng>::from_seed(s) } else { <$t>::from_seed(s) }), None)
             }
-            SeedSpec::U64(x) => $okc(wrap(<$t>::seed_from_u64(*x)), None),
+            SeedSpec::U64(x) => $okc(wrap(if call_generic() { <$t as SeedableRng>::seed_from_u64(*x) } else { <$t>::seed_from_u64(*x) }), None),
             SeedSpec::FromRng(src) => {
                 let mut s = SimSource::new(src.clone());
-                let g = <$t>::from_rng(&mut s);
+                let g = if call_generic() { <$t as SeedableRng>::from_rng(&mut s) } else { <$t>::from_rng(&mut s) };
                 let rep = SourceReport { pos: s.pos, calls: s.calls, log: s.log, fired: false };
                 $okc(wrap(g), Some(rep))
             }
             SeedSpec::TryFromRng(src) => {
                 let mut s = FallibleSource::new(src.clone());
-                let r = <$t>::try_from_rng(&mut s);
+                let r = if call_generic() { <$t as SeedableRng>::try_from_rng(&mut s) } else { <$t>::try_from_rng(&mut s) };
                 let rep = SourceReport {
                     pos: s.inner.pos,
                     calls: s.inner.calls,
@@ -421,13 +442,13 @@ macro_rules! det_gens {
             pub struct $w(pub $t);
             impl DynGen for $w {
                 fn kind(&self) -> Kind { Kind::$kind }
-                fn next_u32(&mut self) -> u32 { self.0.next_u32() }
-                fn next_u64(&mut self) -> u64 { self.0.next_u64() }
-                fn fill_bytes(&mut self, dest: &mut [u8]) { self.0.fill_bytes(dest) }
-                fn boxed_clone(&self) -> Box<dyn DynGen> { Box::new($w(self.0.clone())) }
+                fn next_u32(&mut self) -> u32 { if call_generic() { RngCore::next_u32(&mut self.0) } else { self.0.next_u32() } }
+                fn next_u64(&mut self) -> u64 { if call_generic() { RngCore::next_u64(&mut self.0) } else { self.0.next_u64() } }
+                fn fill_bytes(&mut self, dest: &mut [u8]) { if call_generic() { RngCore::fill_bytes(&mut self.0, dest) } else { self.0.fill_bytes(dest) } }
+                fn boxed_clone(&self) -> Box<dyn DynGen> { Box::new($w(if call_generic() { Clone::clone(&self.0) } else { self.0.clone() })) }
                 fn clone_from_dyn(&mut self, src: &dyn DynGen) -> bool {
                     match src.as_any().downcast_ref::<$w>() {
-                        Some(o) => { self.0.clone_from(&o.0); true }
+                        Some(o) => { if call_generic() { Clone::clone_from(&mut self.0, &o.0) } else { self.0.clone_from(&o.0) }; true }
                         None => false,
                     }
                 }
@@ -446,7 +467,7 @@ macro_rules! det_gens {
                 fn jump(&mut self) -> bool { m_jump!($jump, self.0, jump) }
                 fn long_jump(&mut self) -> bool { m_jump!($jump, self.0, long_jump) }
                 fn snapshot(&self, fmt: SnapFmt) -> Option<Vec<u8>> { m_snap!($snap, &self.0, fmt) }
-                fn debug(&self) -> (String, String) { (format!("{:?}", self.0), format!("{:#?}", self.0)) }
+                fn debug(&self) -> (String, String) { dbg_texts(&self.0) }
                 fn as_any(&self) -> &dyn Any { self }
             }
         )*
@@ -567,16 +588,28 @@ impl<F: Fn() -> u64 + Send + Sync + Clone + 'static> DynGen for JitterGen<F> {
         Kind::Jitter
     }
     fn next_u32(&mut self) -> u32 {
-        self.rng.next_u32()
+        if call_generic() {
+            RngCore::next_u32(&mut self.rng)
+        } else {
+            self.rng.next_u32()
+        }
     }
     fn next_u64(&mut self) -> u64 {
-        self.rng.next_u64()
+        if call_generic() {
+            RngCore::next_u64(&mut self.rng)
+        } else {
+            self.rng.next_u64()
+        }
     }
     fn fill_bytes(&mut self, dest: &mut [u8]) {
-        self.rng.fill_bytes(dest)
+        if call_generic() {
+            RngCore::fill_bytes(&mut self.rng, dest)
+        } else {
+            self.rng.fill_bytes(dest)
+        }
     }
     fn boxed_clone(&self) -> Box<dyn DynGen> {
-        let rng = self.rng.clone();
+        let rng = if call_generic() { Clone::clone(&self.rng) } else { self.rng.clone() };
         // the clone of the closure forked the clock and registered the new cursor last
         let clock = self.clock.reg.forks.lock().unwrap().last().cloned().expect("fork registered");
         Box::new(JitterGen { rng, clock })
@@ -584,7 +617,11 @@ impl<F: Fn() -> u64 + Send + Sync + Clone + 'static> DynGen for JitterGen<F> {
     fn clone_from_dyn(&mut self, src: &dyn DynGen) -> bool {
         match src.as_any().downcast_ref::<JitterGen<F>>() {
             Some(o) => {
-                self.rng.clone_from(&o.rng);
+                if call_generic() {
+                    Clone::clone_from(&mut self.rng, &o.rng)
+                } else {
+                    self.rng.clone_from(&o.rng)
+                }
                 // the timer was cloned (forked) from the source's: follow the newest fork
                 self.clock = o.clock.reg.forks.lock().unwrap().last().cloned().expect("fork registered");
                 true
@@ -605,7 +642,7 @@ impl<F: Fn() -> u64 + Send + Sync + Clone + 'static> DynGen for JitterGen<F> {
         None
     }
     fn debug(&self) -> (String, String) {
-        (format!("{:?}", self.rng), format!("{:#?}", self.rng))
+        dbg_texts(&self.rng)
     }
     fn as_any(&self) -> &dyn Any {
         self
@@ -732,7 +769,7 @@ macro_rules! wrapped_impl {
                 None
             }
             fn debug(&self) -> (String, String) {
-                (format!("{:?}", self.0), format!("{:#?}", self.0))
+                dbg_texts(&self.0)
             }
             fn as_any(&self) -> &dyn Any {
                 self
@@ -770,7 +807,7 @@ impl DynCore for CHc128 {
         None
     }
     fn debug(&self) -> (String, String) {
-        (format!("{:?}", self.0), format!("{:#?}", self.0))
+        dbg_texts(&self.0)
     }
     fn wrap(&self) -> Box<dyn DynGen> {
         Box::new(WrappedCore32(BlockRng::new(self.0.clone()), Kind::Hc128))
@@ -807,7 +844,7 @@ impl DynCore for CIsaac {
         m_snap!(yes, &self.0, fmt)
     }
     fn debug(&self) -> (String, String) {
-        (format!("{:?}", self.0), format!("{:#?}", self.0))
+        dbg_texts(&self.0)
     }
     fn wrap(&self) -> Box<dyn DynGen> {
         Box::new(WrappedCore32(BlockRng::new(self.0.clone()), Kind::Isaac))
@@ -844,7 +881,7 @@ impl DynCore for CIsaac64 {
         m_snap!(yes, &self.0, fmt)
     }
     fn debug(&self) -> (String, String) {
-        (format!("{:?}", self.0), format!("{:#?}", self.0))
+        dbg_texts(&self.0)
     }
     fn wrap(&self) -> Box<dyn DynGen> {
         Box::new(WrappedCore64(BlockRng64::new(self.0.clone()), Kind::Isaac64))
